@@ -474,7 +474,8 @@ def loader_wrappers_forward_their_arguments_to_the_data_set(S):
     S.ensure("no-automatic-batching-or-shuffling-by-the-loader", S.getattr(ld, "batch_size") is None and ld.f.get("_tpv_shuffle") is False)
 
 
-@scenario("C16", [COND + ".forward"], configs=["two-batches-three-calls"], bounded="a loader with two batches and a history of three forward calls; batch contents symbolic")
+@scenario("C07", [COND + ".forward"], configs=["two-batches-three-calls"], bounded="a loader with two batches and a history of forward calls of two conditions; batch contents symbolic", name="data_condition_single_batch_mode_cycles_through_the_loader")
+@scenario("C16", [COND + ".forward"], configs=["two-batches-three-calls"], bounded="a loader with two batches and a history of forward calls of two conditions; batch contents symbolic")
 def data_condition_single_batch_mode_cycles_through_the_loader(S):
     """DataCondition(use_full_dataset=False): successive forward calls use successive batches and start over after the
     last one (each batch once per pass): calls 1, 2, 3 see batches 0, 1, 0"""
@@ -487,9 +488,19 @@ def data_condition_single_batch_mode_cycles_through_the_loader(S):
     N0, N1 = S.int("N0", 1), S.int("N1", 1)
     mk = lambda nm, n: (S.new(POINTS, S.tensor("X" + nm, [n, 3]), tx), S.new(POINTS, S.tensor("Y" + nm, [n, 1]), S.new(RN, "u", 1)))
     b0, b1 = mk("0", N0), mk("1", N1)
-    cond = S.new(COND, model.obj, [b0, b1], 2)
+    loader = (b0, b1)
+    cond = S.new(COND, model.obj, loader, 2)
     for _ in range(3):
         S.method(cond, "forward")
     S.ensure("one-model-evaluation-per-call", len(model.calls) == 3)
     if len(model.calls) == 3:
         S.ensure("batches-0-1-then-0-again", model.calls[0]["points"] is b0[0] and model.calls[1]["points"] is b1[0] and model.calls[2]["points"] is b0[0])
+    # a second condition (e.g. a validation condition) on the SAME loader walks through it on its own: neither
+    # condition consumes batches of the other
+    model2 = AbstractModel(S, "net2", tx, S.new(RN, "u", 1))
+    cond2 = S.new(COND, model2.obj, loader, 2)
+    S.method(cond2, "forward")
+    S.method(cond, "forward")
+    S.method(cond2, "forward")
+    S.ensure("second-condition-starts-at-batch-0-and-continues-with-batch-1", len(model2.calls) == 2 and model2.calls[0]["points"] is b0[0] and model2.calls[1]["points"] is b1[0])
+    S.ensure("first-condition-continues-its-own-pass", len(model.calls) == 4 and model.calls[3]["points"] is b1[0])
